@@ -81,7 +81,15 @@ def _replace(t, old, new):
         return new
     if not isinstance(t, tuple):
         return t
-    return tuple(_replace(x, old, new) if isinstance(x, tuple) else x for x in t)
+    r = tuple(_replace(x, old, new) if isinstance(x, tuple) else x for x in t)
+    # re-fold what the substitution made reducible: a field of the payload of a value now known to be that very variant,
+    # and a dereference of a reference
+    if r and r[0] == "fld" and len(r) > 2 and isinstance(r[1], tuple) and r[1] and r[1][0] == "dc" and isinstance(r[1][1], tuple) and r[1][1] and \
+            r[1][1][0] == "aggr" and r[1][1][1][0] == "adt" and isinstance(r[2], int) and r[2] < len(r[1][1][2]):
+        return r[1][1][2][r[2]]
+    if r and r[0] == "deref" and len(r) == 2 and isinstance(r[1], tuple) and r[1] and r[1][0] == "ref" and len(r[1]) == 2:
+        return r[1][1]
+    return r
 
 
 def classify(F, fn, input_term=None, domain=None, target=0, expand=True):
@@ -92,15 +100,20 @@ def classify(F, fn, input_term=None, domain=None, target=0, expand=True):
     tb = T.TB(F, body)
     # ---- find the input term: discriminant of the first non-expansion switch in RPO
     if input_term is None:
+        # the classified value: the term most switches test (directly or through a comparison with a constant); the first one in
+        # reverse post-order among equals.  (A function may branch once on something else first - e.g. on which layout a value was
+        # read from - before classifying the value.)
+        cands = []
         for b in body.rpo:
             t = body.term(b)
             if t["k"] == "switch":
                 dt = G.strip(tb.operand(t["d"], (b, len(body.stmts(b)))))
-                if dt[0] == "bin" and dt[1] in G.CMPS:
-                    x, y = G.strip(dt[2]), G.strip(dt[3])
-                    dt = y if x[0] == "c" else x
-                input_term = dt
-                break
+                dt = _tested_term(dt)
+                if dt[0] != "c":
+                    cands.append(dt)
+        if cands:
+            best = max(set(cands), key=lambda c_: (cands.count(c_), -cands.index(c_)))
+            input_term = best
     if input_term is None:
         raise Unrecognised("no switch found")
     if domain is None:
@@ -131,6 +144,28 @@ def classify(F, fn, input_term=None, domain=None, target=0, expand=True):
                 s = minus(cur, taken)
                 if s:
                     state[t["otherwise"]] = union(state.get(t["otherwise"], ()), s)
+            elif dt[0] == "ite" and dt[2][0] == "c" and dt[3][0] == "c" and isinstance(dt[1], tuple) and dt[1] and dt[1][0] in ("cmp", "bin") and dt[1][1] in G.CMPS \
+                    and _tested_term(("bin",) + tuple(dt[1][1:4])) == input_term:
+                # a switch on `if input CMP c { k1 } else { k0 }` (the discriminant of a value chosen by that test)
+                c_ = dt[1]
+                x, y, op = G.strip(c_[2]), G.strip(c_[3]), c_[1]
+                if y == input_term and x[0] == "c":
+                    x, y, op = y, x, G.SWAP[op]
+                k = y[1]
+                INF = full[-1][1]
+                sat = {"Eq": ((k, k),), "Ne": minus(full, ((k, k),)), "Lt": ((0, k - 1),) if k > 0 else (), "Le": ((0, k),),
+                       "Gt": ((k + 1, INF),) if k < INF else (), "Ge": ((k, INF),)}[op]
+                tr = inter(cur, norm(sat))
+                fl = minus(cur, tr)
+                handled = True
+                for part, kv in ((tr, dt[2][1]), (fl, dt[3][1])):
+                    if not part:
+                        continue
+                    tg = t["otherwise"]
+                    for v, tgt in zip(t["vals"], t["ts"]):
+                        if v == kv:
+                            tg = tgt
+                    state[tg] = union(state.get(tg, ()), part)
             elif dt[0] == "bin" and dt[1] in G.CMPS:
                 x, y = G.strip(dt[2]), G.strip(dt[3])
                 op = dt[1]
@@ -181,7 +216,7 @@ def classify(F, fn, input_term=None, domain=None, target=0, expand=True):
         pieces.append((state[b], val, b))
     # diverging pieces (panic arms)
     for b in sorted(body.reachable):
-        if b in state and not body.succ[b] and body.term(b)["k"] != "return":
+        if b in state and not body.succ[b] and body.term(b)["k"] not in ("return", "unreachable"):
             pieces.append((state[b], ("diverge", M.callee_path(body.term(b)) if body.term(b)["k"] == "call" else body.term(b)["k"]), b))
     # pieces that assign the same value are one piece (the same arm reached along several input-independent paths,
     # e.g. through the branches of a logging macro; THREAD duplicates the assignment per path)
@@ -240,11 +275,22 @@ def classify(F, fn, input_term=None, domain=None, target=0, expand=True):
     cov = ()
     for (s, _, _) in pieces:
         if inter(cov, s):
-            raise Unrecognised("overlapping pieces (merged arms?)")
+            raise Unrecognised("overlapping pieces (merged arms?): %s" % [(fmt(s_), G.show(v_)[:60], b_) for (s_, v_, b_) in pieces][:12])
         cov = union(cov, s)
     if minus(full, cov):
         raise Unrecognised("pieces do not cover the domain: missing %s" % fmt(minus(full, cov)))
     return input_term, pieces, tb
+
+
+def _tested_term(dt):
+    """the non-constant side of a comparison with a constant (else the term itself); through a constant-valued choice on such a
+    comparison"""
+    if isinstance(dt, tuple) and dt and dt[0] == "ite" and dt[2][0] == "c" and dt[3][0] == "c" and isinstance(dt[1], tuple) and dt[1] and dt[1][0] in ("cmp", "bin"):
+        return _tested_term(("bin",) + tuple(dt[1][1:4]))
+    if isinstance(dt, tuple) and dt and dt[0] == "bin" and dt[1] in G.CMPS:
+        x, y = G.strip(dt[2]), G.strip(dt[3])
+        return y if x[0] == "c" else x
+    return dt
 
 
 def _split_ite(v, input_term, dom, full):
